@@ -11,7 +11,7 @@ Proof.
   induction conn as [|[q a] rest IH]; intros rs out cl H; cbn [serve closes] in *.
   - now inversion H.
   - destruct (negb (r_ok q)); [now inversion H|].
-    destruct (start _ _ _) as [r1|]; [|discriminate].
+    match goal with H : match ?X with Ok _ => _ | Exc _ => _ end = _ |- _ => destruct X as [r1|]; [|discriminate] end.
     destruct (run_pieces _ _ _) as [[r2 o]|]; [|discriminate].
     destruct (persisted q).
     + destruct (serve date (Some r2) rest) as [[o' c']|] eqn:E; [|discriminate].
@@ -28,7 +28,7 @@ Proof. reflexivity. Qed.
 Definition head_of (date : bytes) (r : rstate) : bytes := snd (build date r).
 Definition eff_chunked (date : bytes) (r : rstate) : bool :=
   if headed r then chunked r
-  else snd (built_headers date (chunkable r) (headers r)) || chunked r.
+  else snd (built_headers date (chunkable r && is_none (length_ r)) (headers r)) || chunked r.
 
 Lemma run_ended date r ps : ended r = true -> run_pieces date r ps = Ok (r, []).
 Proof. intros H. destruct ps; cbn [run_pieces]; now rewrite H. Qed.
@@ -44,7 +44,7 @@ Proof.
   intros Hs Hl. unfold write, eff_chunked, head_of. rewrite Hs. cbn [negb].
   destruct (headed r) eqn:Hh.
   - rewrite Hl. exists r. repeat split; auto.
-  - unfold build. destruct (built_headers date (chunkable r) (headers r)) as [hs ch].
+  - unfold build. destruct (built_headers date (chunkable r && is_none (length_ r)) (headers r)) as [hs ch].
     cbn [set_headed length_ chunked headed started ended size snd fst chunkable status headers].
     rewrite Hl.
     eexists. split; [reflexivity|]. cbn. repeat split; auto.
@@ -61,22 +61,22 @@ Proof.
 Qed.
 
 Lemma write_len date r msg L :
-  started r = true -> length_ r = Some L -> chunkable r = false -> chunked r = false ->
+  started r = true -> length_ r = Some L -> chunked r = false ->
   exists r', write date r msg =
              Ok (r', (if headed r then [] else head_of date r) ++ firstn (N.to_nat (L - size r)) msg)
-    /\ started r' = true /\ length_ r' = Some L /\ chunkable r' = false /\ chunked r' = false
+    /\ started r' = true /\ length_ r' = Some L /\ chunked r' = false
     /\ headed r' = true /\ ended r' = ended r
     /\ size r' = size r + N.min (len msg) (L - size r).
 Proof.
-  intros Hs Hl Hck Hch. unfold write, head_of. rewrite Hs. cbn [negb].
+  intros Hs Hl Hch. unfold write, head_of. rewrite Hs. cbn [negb].
   assert (Hsz : forall m : bytes, len (firstn (N.to_nat (L - size r)) m) = N.min (len m) (L - size r)).
   { intros m. unfold len. rewrite firstn_length. lia. }
   destruct (headed r) eqn:Hh.
   - rewrite Hch, Hl. rewrite clamp_firstn. eexists. split; [reflexivity|].
     cbn [set_size started length_ chunkable chunked headed ended size]. rewrite Hsz. repeat split; auto.
-  - unfold build. rewrite Hck. unfold built_headers. cbn [andb].
+  - unfold build. rewrite Hl. cbn [is_none]. rewrite andb_false_r. unfold built_headers. cbn [andb].
     cbn [set_headed length_ chunked headed started ended size snd fst chunkable status headers].
-    rewrite Hch, Hl. rewrite clamp_firstn. eexists. split; [reflexivity|].
+    rewrite Hch. rewrite clamp_firstn. eexists. split; [reflexivity|].
     cbn [set_size started length_ chunkable chunked headed ended size]. rewrite Hsz. repeat split; auto.
 Qed.
 
@@ -88,18 +88,18 @@ Proof. destruct l; [reflexivity|discriminate]. Qed.
 
 Lemma run_len date L : forall ps r,
   started r = true -> ended r = false -> length_ r = Some L ->
-  chunkable r = false -> chunked r = false ->
+  chunked r = false ->
   size r <= L -> (headed r = true -> size r < L) ->
   exists r', run_pieces date r ps =
              Ok (r', (if headed r then [] else head_of date r)
                      ++ firstn (N.to_nat (L - size r)) (List.concat ps)).
 Proof.
-  induction ps as [|p ps IH]; intros r Hs He Hl Hck Hch Hle Hlt; cbn [run_pieces]; rewrite He.
-  - destruct (write_len date r [] L Hs Hl Hck Hch) as (r' & Hw & _). rewrite Hw.
+  induction ps as [|p ps IH]; intros r Hs He Hl Hch Hle Hlt; cbn [run_pieces]; rewrite He.
+  - destruct (write_len date r [] L Hs Hl Hch) as (r' & Hw & _). rewrite Hw.
     eexists. cbn [List.concat]. now rewrite !firstn_nil.
   - destruct (is_nil p) eqn:Hp.
     { apply is_nil_true in Hp. subst p. rewrite concat_nil_cons. now apply IH. }
-    destruct (write_len date r p L Hs Hl Hck Hch) as (r1 & Hw & Hs1 & Hl1 & Hck1 & Hch1 & Hh1 & He1 & Hz1).
+    destruct (write_len date r p L Hs Hl Hch) as (r1 & Hw & Hs1 & Hl1 & Hch1 & Hh1 & He1 & Hz1).
     rewrite Hw, Hl1. cbn [List.concat]. rewrite firstn_app.
     destruct (L <=? size r1) eqn:Hend.
     + rewrite run_ended by reflexivity.
@@ -107,7 +107,7 @@ Proof.
       replace (N.to_nat (L - size r) - length p)%nat with 0%nat by (unfold len in Hz1; lia).
       now rewrite firstn_O, app_nil_r.
     + assert (Hlen : len p < L - size r) by lia.
-      destruct (IH r1 Hs1 (eq_trans He1 He) Hl1 Hck1 Hch1) as (r3 & Hr); [lia | intros _; lia |].
+      destruct (IH r1 Hs1 (eq_trans He1 He) Hl1 Hch1) as (r3 & Hr); [lia | intros _; lia |].
       rewrite Hr, Hh1. exists r3. f_equal. f_equal. rewrite <- app_assoc. f_equal.
       cbn [List.app]. f_equal. f_equal. unfold len in *. lia.
 Qed.
@@ -161,33 +161,66 @@ Definition cl_ok (a : app) : Prop :=
   | None => True
   end.
 
-Lemma respond_spec date q a rs :
-  cl_ok a ->
-  exists r1 r2,
-    start (match rs with None => init (r_v11 q) | Some r => reset r (Some (r_v11 q)) end)
-          (a_status a) (a_headers a) = Ok r1
-    /\ run_pieces date r1 (a_pieces a) = Ok (r2, encode date (q, a)).
+(* a second start_response call (exc_info, head not sent yet) replaces the first one as a whole *)
+Lemma start_twice r0 st1 hs1 st hs r' :
+  started r0 = false -> headed r0 = false ->
+  start r0 st1 hs1 false = Ok r' -> start r' st hs true = start r0 st hs false.
 Proof.
-  intros Hcl.
+  unfold start, start_core. intros Hs Hh. rewrite Hs.
+  destruct (hfind s_content_length hs1) as [v|]; [destruct (parse_dec v); [|discriminate]|];
+    intros E; inversion E; subst; cbn [headed chunkable chunked ended size]; rewrite Hh; reflexivity.
+Qed.
+
+Definition started_state (q : req) (a : app) (rs : option rstate) : res rstate :=
+  let r0 := match rs with None => init (r_v11 q) | Some r => reset r (Some (r_v11 q)) end in
+  match a_first a with
+  | None => start r0 (a_status a) (a_headers a) false
+  | Some (st1, hs1) =>
+    match start r0 st1 hs1 false with
+    | Ok r0' => start r0' (a_status a) (a_headers a) true
+    | Exc k => Exc k
+    end
+  end.
+
+Lemma started_state_last q a rs :
+  first_ok a = true ->
+  started_state q a rs = start (init (r_v11 q)) (a_status a) (a_headers a) false.
+Proof.
+  intros Hf. unfold started_state.
   assert (E0 : match rs with None => init (r_v11 q) | Some r => reset r (Some (r_v11 q)) end = init (r_v11 q)).
   { destruct rs; reflexivity. }
-  rewrite E0. unfold init, start, cl_ok, encode, enc_head, enc_body, declared, hmem in *.
+  rewrite E0. unfold first_ok in Hf. destruct (a_first a) as [[st1 hs1]|]; [|reflexivity].
+  destruct (start (init (r_v11 q)) st1 hs1 false) as [r'|k] eqn:E.
+  - eapply start_twice; [reflexivity | reflexivity | exact E].
+  - exfalso. unfold start, start_core, init in E. cbn [started] in E.
+    destruct (hfind s_content_length hs1) as [v|]; [|discriminate].
+    destruct (parse_dec v); [discriminate | discriminate].
+Qed.
+
+Lemma respond_spec date q a rs :
+  cl_ok a -> first_ok a = true ->
+  exists r1 r2,
+    started_state q a rs = Ok r1
+    /\ run_pieces date r1 (a_pieces a) = Ok (r2, encode date (q, a)).
+Proof.
+  intros Hcl Hf. rewrite started_state_last by assumption.
+  unfold init, start, start_core, cl_ok, encode, enc_head, enc_body, declared, hmem in *.
   cbn [started headed chunked ended size chunkable fst snd].
-  destruct (hfind s_content_length (a_headers a)) as [v|] eqn:Hf.
+  destruct (hfind s_content_length (a_headers a)) as [v|] eqn:Hfd.
   - destruct (parse_dec v) as [L|] eqn:Hd; [|congruence].
-    eexists. 
-    edestruct (run_len date L (a_pieces a)) as (r2 & Hr); cycle 7.
+    eexists.
+    edestruct (run_len date L (a_pieces a)) as (r2 & Hr); cycle 6.
     { exists r2. split; [reflexivity|]. rewrite Hr.
-      cbn [headed size]. unfold head_of, build. cbn [chunkable headers status andb negb].
-      rewrite Bool.andb_false_r.
+      cbn [headed size]. unfold head_of, build. cbn [chunkable headers status andb negb length_ is_none].
+      rewrite !Bool.andb_false_r.
       destruct (built_headers date false (a_headers a)) as [hs ch] eqn:Eb.
       cbn [fst snd]. rewrite N.sub_0_r. reflexivity. }
-    all: unfold init; cbn [started ended length_ chunkable chunked size headed]; try reflexivity; try lia; try discriminate.
+    all: cbn [started ended length_ chunkable chunked size headed]; try reflexivity; try lia; try discriminate.
   - eexists.
     edestruct (run_nolen date (a_pieces a)) as (r2 & Hr); cycle 3.
     { exists r2. split; [reflexivity|]. rewrite Hr.
-      cbn [headed]. unfold head_of, eff_chunked, build. cbn [chunkable headers status headed chunked negb].
-      rewrite Bool.andb_true_r, Bool.orb_false_r.
+      cbn [headed]. unfold head_of, eff_chunked, build. cbn [chunkable headers status headed chunked negb length_ is_none].
+      rewrite !Bool.andb_true_r, Bool.orb_false_r.
       destruct (built_headers date (r_v11 q) (a_headers a)) as [hs ch] eqn:Eb.
       cbn [fst snd]. reflexivity. }
     all: reflexivity.
@@ -196,17 +229,47 @@ Qed.
 (* the whole connection: the stream is the concatenation of the encodings of the
    answered requests, independently of the Responder being created or reused *)
 Lemma serve_spec date : forall conn rs,
-  (forall qa, In qa conn -> cl_ok (snd qa)) ->
+  (forall qa, In qa conn -> cl_ok (snd qa) /\ first_ok (snd qa) = true) ->
   serve date rs conn = Ok (List.concat (List.map (encode date) (answered conn)), closes conn).
 Proof.
   induction conn as [|[q a] rest IH]; intros rs Hcl; cbn [serve answered closes].
   - reflexivity.
   - destruct (negb (r_ok q)); [reflexivity|].
-    destruct (respond_spec date q a rs) as (r1 & r2 & Hst & Hrun).
-    { apply (Hcl (q, a)). now left. }
-    rewrite Hst, Hrun.
+    destruct (Hcl (q, a) (or_introl eq_refl)) as [Hc1 Hc2].
+    destruct (respond_spec date q a rs Hc1 Hc2) as (r1 & r2 & Hst & Hrun).
+    unfold started_state in Hst. cbv zeta in Hst. rewrite Hst, Hrun.
     destruct (persisted q).
     + rewrite IH by (intros qa Hin; apply Hcl; now right).
       cbn [List.map List.concat]. reflexivity.
     + cbn [List.map List.concat]. now rewrite app_nil_r.
+Qed.
+
+(* the stream does not depend on an abandoned first start_response call *)
+Definition forget_first (qa : req * app) : req * app :=
+  (fst qa, {| a_status := a_status (snd qa); a_headers := a_headers (snd qa); a_pieces := a_pieces (snd qa);
+              a_first := None |}).
+
+Lemma answered_forget conn : answered (List.map forget_first conn) = List.map forget_first (answered conn).
+Proof.
+  induction conn as [|[q a] rest IH]; [reflexivity|]. cbn [List.map answered forget_first fst snd].
+  destruct (negb (r_ok q)); [reflexivity|]. destruct (persisted q); cbn [List.map]; [now rewrite IH | reflexivity].
+Qed.
+
+Lemma closes_forget conn : closes (List.map forget_first conn) = closes conn.
+Proof.
+  induction conn as [|[q a] rest IH]; [reflexivity|]. cbn [List.map closes forget_first fst snd].
+  destruct (negb (r_ok q)); [reflexivity|]. destruct (persisted q); [exact IH | reflexivity].
+Qed.
+
+Lemma serve_forgets_first date conn rs :
+  (forall qa, In qa conn -> cl_ok (snd qa) /\ first_ok (snd qa) = true) ->
+  serve date rs conn = serve date rs (List.map forget_first conn).
+Proof.
+  intros H. rewrite serve_spec by assumption. rewrite serve_spec.
+  - rewrite answered_forget, closes_forget.
+    assert (E : List.map (encode date) (List.map forget_first (answered conn)) = List.map (encode date) (answered conn)).
+    { rewrite map_map. apply map_ext. intros [q a]. reflexivity. }
+    now rewrite E.
+  - intros qa Hin. apply in_map_iff in Hin as ([q a] & <- & Hin). destruct (H _ Hin) as [A _].
+    split; [exact A | reflexivity].
 Qed.
